@@ -62,6 +62,9 @@ def chunk(item):
         te, tr = parents[idx // N], parents[idx % N]
         if te.time_interval[1] <= tr.time_interval[0]:
             continue  # acausal: all pieces are acausal too (C04)
+        if universe.aspect(te) > ASPECT or universe.aspect(tr) > ASPECT:
+            out['skipped_aspect'] += 1
+            continue  # the unsplit entry itself is outside the aspect range the property covers
         scale = math.sqrt(orc.diag(te) * orc.diag(tr))
         P = {k: pieces(by, te, k) for k in KINDS}
         Q = {k: pieces(by, tr, k) for k in KINDS}
@@ -121,9 +124,11 @@ def history_task(item):
     return chunk((keyB, 0, len(pB) ** 2))
 
 
-UNIV = {'quick': [(c, (0., 1.), 1, 1) for c in CURVES] + [('UnitSquare', (0., 0.3, 1.), 0, 1), ('Circle', (0., 0.125), 0, 1)],
+UNIV = {'quick': [(c, (0., 1.), 1, 1) for c in CURVES] + [('UnitSquare', (0., 0.3, 1.), 0, 1), ('Circle', (0., 0.125), 0, 1)]
+                 + [('UnitSquare', (0., 2.0**-9), 0, 2), ('Circle', (0., 2.0**-9), 0, 3)],  # very short end time: only seam / corner / neighbour couples survive
         'thorough': [(c, (0., 1.), 1, 2) for c in CURVES] + [(c, (0., 1., 2.), 1, 1) for c in CURVES] + [(c, (0., 0.3, 1.), 1, 1) for c in CURVES]
-                    + [(c, (0., 0.125), 0, 2) for c in CURVES]}
+                    + [(c, (0., 0.125), 0, 2) for c in CURVES]
+                    + [('UnitSquare', (0., 2.0**-9), 1, 2), ('Circle', (0., 2.0**-9), 0, 3), ('LShape', (0., 2.0**-9), 0, 2), ('UnitSquare', (0., 2.0**-9, 1.), 0, 2)]}
 
 
 def run(ctx):
